@@ -64,7 +64,7 @@ def gen(w, rng):
         if kind == "O":
             value = rng.choice(["p", "zz"])
         else:
-            value = rng.choice([7, -5, 2.5, 7.6, -8.7, {"sel": rng.choice([3, 11])}, {"sel_nd": rng.choice([4, 12])}, {"sel_ma": rng.choice([6, 13])}])
+            value = rng.choice([7, -5, 2.5, 7.6, -8.7, {"sel": rng.choice([3, 11])}, {"sel_nd": rng.choice([4, 12])}, {"sel_ma": rng.choice([6, 13])}, {"sel_T": rng.choice([20, 40])}])
         return {"op": "disk_assign", "path": path, "name": name, "idx": idx, "pos": pos, "value": value,
                 "via": rng.choice(["item", "write"]), "check_other_handle": rng.random() < 0.3,
                 "reject_first": rng.random() < 0.2}
@@ -284,11 +284,18 @@ def x_disk_assign(w, s):
         sel = _guard(lambda: arr.take(index, indexing=indexing))
         if sel[0] == "raise":
             return "unasserted:" + sel[1].__name__
-        const = value.get("sel", value.get("sel_nd", value.get("sel_ma")))
+        const = value.get("sel", value.get("sel_nd", value.get("sel_ma", value.get("sel_T"))))
         if isinstance(sel[1], w.da.DimArray):
             val = sel[1].copy()
             val.values[...] = const
             val.attrs.clear()
+            if "sel_T" in value:
+                # a DimArray whose dimensions come in another order than the selection: assigned by position, on disk as in memory
+                if val.ndim < 2:
+                    return "unasserted:rank"
+                val.values[...] = (np.arange(val.size) + const).reshape(val.shape)
+                val = val.transpose(*list(reversed(val.dims)))
+                w.count("c20:assign_transposed_dimarray")
             if "sel_nd" in value:
                 val = np.array(val.values, copy=True)
             elif "sel_ma" in value:
@@ -304,6 +311,8 @@ def x_disk_assign(w, s):
     else:
         val = value
     memval = np.array(val.values, copy=True) if isinstance(val, w.da.DimArray) else (val.copy() if isinstance(val, np.ma.MaskedArray) else val)
+    if isinstance(value, dict) and "sel_T" in value and isinstance(val, w.da.DimArray):
+        memval = val.copy()      # the labelled array itself on both sides
     g = _guard(lambda: arr.put(index, memval, indexing=indexing, inplace=True))
     if g[0] == "raise":
         w.count("c20:assign_unasserted_memory_raises")
